@@ -382,6 +382,7 @@ def w_inverse(ctx, rng, i):
             # the forward transform and its inverse both built from the one template: two transforms in their own right - the one
             # undoes the other, and the template (and an inverse taken from it before) is as it was
             h_tpl = np.array(t.h_matrix, dtype=float)
+            tgt_tpl = np.array(t.target.points, copy=True) if isinstance(t, _Al) else None
             try:
                 with taps.quiet():
                     v1 = v0 * 1.07 + 0.013
@@ -396,6 +397,9 @@ def w_inverse(ctx, rng, i):
                 ctx.tap("forward_and_inverse_from_one_template", "calls")
                 if cnd_ < 1e6 and np.isfinite(back_).all():
                     ctx.tap("forward_and_inverse_from_one_template", "checked")
+                    if tgt_tpl is not None and (tx.maxdiff(t.target.points, tgt_tpl) > 0 or tx.maxdiff(inv_before.source.points, tgt_tpl) > 0):
+                        # (the alignment's target - the source of the inverse taken before - is the point set it was fitted to)
+                        ctx.fail("pseudoinverse_modified_the_transform", cls=type(t).__name__, mech="from_vector_or_pseudoinverse_vector_moved_the_target_of_the_template")
                     if tx.maxdiff(np.asarray(t.h_matrix, dtype=float), h_tpl) > 0:
                         ctx.fail("pseudoinverse_modified_the_transform", cls=type(t).__name__, mech="from_vector_or_pseudoinverse_vector_changed_the_template")
                     elif tx.maxdiff(np.asarray(fwd_.h_matrix, dtype=float), h_fwd) > 0:
